@@ -16,12 +16,16 @@ namespace Compass
 /-- literals mean what they say: `lit n d = n / d` -/
 class LawfulLit (α : Type) [Field α] [Lit α] : Prop where
   lit_eq : ∀ n d : Nat, (Lit.lit n d : α) = (n : α) / (d : α)
+  /-- every number of a field is below `+∞` (the code's `x < Cost::INFINITY`; at `Float`, outside
+  every theorem, it is false of `+∞` and NaN) -/
+  belowInf_eq : ∀ x : α, Lit.belowInf x = true
 
 instance : Lit ℚ where
   lit n d := (n : ℚ) / (d : ℚ)
 
 instance : LawfulLit ℚ where
   lit_eq _ _ := rfl
+  belowInf_eq _ := rfl
 
 section
 variable {α : Type} [Field α] [LinearOrder α] [IsStrictOrderedRing α] [Lit α] [LawfulLit α]
